@@ -65,6 +65,12 @@ ASSUMPTIONS = [
     "several attempts may be in flight in one process (that is how a web agent or Circuit.stream_via uses the "
     "endpoint); they are independent: each request carries its own target and port whatever the other attempts "
     "are and in whatever order the SOCKS servers answer; in the concurrent driver tls is off",
+    "an IPv6 literal with a zone id ('fe80::1%eth0') has no SOCKS5 encoding as an address: it must be refused or, "
+    "at most, go out whole (zone included) as a DOMAINNAME of exactly its bytes; the unchanged tree refuses it for "
+    "CONNECT and RESOLVE_PTR (inet_pton raises) and sends it whole as a name for RESOLVE",
+    "a refusal must have an outcome before the server gives up waiting: a failed Deferred, an exception out of "
+    "the call or out of dataReceived, or the client closing the connection - 'nothing written, nothing "
+    "reported' is a violation",
     "when the server selects a method other than 0 no request may be written at all (how the attempt then "
     "fails is C05's subject)",
 ]
@@ -93,6 +99,11 @@ def target_class(target):
     p = ref.pack_ipv6(target)
     if p is not None:
         return "ipv6", p
+    if "%" in target and target.isascii():
+        base, _, zone = target.partition("%")
+        if zone and ref.pack_ipv6(base) is not None:
+            # an IPv6 literal with a zone id: SOCKS5 has no field for the zone, so it cannot go out as ATYP 4
+            return "scoped-ipv6", target.encode("ascii")
     try:
         raw = target.encode("ascii")
     except UnicodeEncodeError:
@@ -211,7 +222,7 @@ def _request_steps(case, res):
     g = pipe.client_bytes()
     refused_early = (pipe.connects == 0 or g == b"") and (sync_error is not None or (w is not None and w.failed))
     if refused_early:
-        if tclass == "unencodable" or (req == "RESOLVE_PTR" and tclass == "name"):
+        if tclass in ("unencodable", "scoped-ipv6") or (req == "RESOLVE_PTR" and tclass == "name"):
             res.label("refused-before-connecting")
             return finish()
         if tls is True:
@@ -272,6 +283,10 @@ def _request_steps(case, res):
         yield 'judged'
         return _tail(res, pipe, w, g, after_method, req, target, expect_error=True, deliver=not tls)
 
+    if tclass == "scoped-ipv6" and not after_method:
+        res.label("scoped-ipv6-refused")
+        yield 'judged'
+        return _tail(res, pipe, w, g, after_method, req, target, expect_error=True, deliver=not tls)
     if req == "RESOLVE_PTR" and tclass == "name" and not after_method:
         res.label("ptr-name-refused")
         yield 'judged'
@@ -305,6 +320,15 @@ def _request_steps(case, res):
     lit = target.encode("ascii")
     if tclass == "name":
         ok = (r["atyp"] == ref.ATYP_DOMAIN and r["addr"] == tval)
+    elif tclass == "scoped-ipv6":
+        # not refused: then the only unmangled form is the whole literal, zone included, as a DOMAINNAME
+        ok = (r["atyp"] == ref.ATYP_DOMAIN and r["addr"] == tval)
+        res.label("scoped-ipv6-sent-as-name")
+        if not ok and r["atyp"] == ref.ATYP_IPV6 and r["addr"] == ref.pack_ipv6(target.partition("%")[0]):
+            res.bad("scoped-ipv6-sent-without-its-zone", "%s %r: request carries ATYP 4 %s - the zone id was "
+                                                         "dropped, this is a different address" % (
+                                                             req, target, r["addr"].hex()))
+            ok = True
     else:
         packed_ok = (r["atyp"] == (ref.ATYP_IPV4 if tclass == "ipv4" else ref.ATYP_IPV6) and r["addr"] == tval)
         text_ok = (r["atyp"] == ref.ATYP_DOMAIN and r["addr"] == lit)
@@ -330,6 +354,15 @@ def _is_utf8_resolve(req, target, after):
 def _tail(res, pipe, w, g, after_method, req, target, expect_error, deliver=True):
     """deliver whatever the server has to say (not for TLS cases: a delivered success reply would start the
     TLS handshake on this transport), hang up, and require that the SOCKS layer wrote nothing more"""
+    if expect_error and res.ok:
+        # a refusal needs an outcome of its own: the server is still waiting for a request here and would wait
+        # for ever, so "nothing written and nothing reported" is not a refusal
+        told = (w is not None and w.failed) or bool(pipe.escaped) or pipe.lost or \
+            pipe.transport.lose_called or pipe.transport.abort_called
+        if not told:
+            res.bad("refusal-without-outcome", "%s %r: no request was written after the method reply, yet the "
+                                               "attempt is still %r, nothing was raised and the connection was "
+                                               "not closed" % (req, target, w.outcome() if w else None))
     guard = 0
     while deliver and pipe.pending and not pipe.lost and guard < 4:
         pipe.deliver(None)
@@ -544,9 +577,20 @@ def methods():
                      st.sampled_from([2, 255]), st.integers(1, 255))
 
 
+SCOPED_IPV6 = ["fe80::1%eth0", "fe80::1%1", "::1%lo", "fe80::a299:9bff:fe0e:4471%wlan0", "ff02::1%en0",
+               "fe80:0:0:0:0:0:0:1%2"]
+
+
+def scoped_ipv6_literals():
+    return st.one_of(st.sampled_from(SCOPED_IPV6),
+                     st.builds(lambda a, z: a + "%" + z, ipv6_literals(),
+                               st.sampled_from(["eth0", "1", "lo", "en0", "15", "wlan0"])))
+
+
 def targets():
-    return st.one_of(names(), names(), ipv4_literals(), ipv6_literals(), ipv6_literals(),
-                     overlong_names(), nonascii_names())
+    return st.one_of(names(), names(), names(), ipv4_literals(), ipv4_literals(), ipv6_literals(), ipv6_literals(),
+                     ipv6_literals(), overlong_names(), overlong_names(), nonascii_names(), nonascii_names(),
+                     scoped_ipv6_literals())
 
 
 CONCURRENT_HOSTS = ["example.com", "a.example.", "1.2.3.4", "timaq4ygg2iegci7.onion", "xn--bcher-kva.example",
@@ -635,7 +679,7 @@ def every_name_length_cases(step=1):
 
 def boundary_cases():
     for req in ("CONNECT", "RESOLVE", "RESOLVE_PTR"):
-        for t in IPV6_BOUNDS + ["0.0.0.0", "255.255.255.255", "1.2.3.4", "example.com", "exämple.com",
+        for t in IPV6_BOUNDS + SCOPED_IPV6[:4] + ["0.0.0.0", "255.255.255.255", "1.2.3.4", "example.com", "exämple.com",
                                 "例え.jp", name_of_len(255, "q"), name_of_len(256, "q")]:
             for m in (0, 2, 255):
                 for p in (0, 0x1234, 65535):
@@ -766,6 +810,14 @@ MUTANTS = [
      "        self._addr = _create_ip_address(str(host), port)",
      "        self._addr = _create_ip_address.__dict__.setdefault('seen', {}).setdefault(\n"
      "            str(host), _create_ip_address(str(host), port))\n        self._addr.port = port"),
+    # what cannot be encoded is refused, with an outcome
+    ("resolve-ptr-drops-the-zone-id", _F,
+     "            encoded_host = inet_pton(AF_INET6, self._addr.host)",
+     "            encoded_host = inet_pton(AF_INET6, self._addr.host.split('%')[0])"),
+    ("unencodable-target-swallowed-silently", _F,
+     "        return self._dispatch[self._req_type](self)",
+     "        try:\n            return self._dispatch[self._req_type](self)\n"
+     "        except (struct.error, UnicodeError):\n            pass"),
     # hosts given as bytes are ASCII, not IDNA
     ("endpoint-bytes-host-decoded-as-idna", _F,
      "            host = host.decode('ascii')", "            host = host.decode('idna')"),
